@@ -31,6 +31,9 @@ pub fn new_box(area: &str) -> Option<Box<dyn VerifBox>> {
         )),
         "c18" => Some(Box::new(c18::PeerIdBox::new())),
         "c04" => Some(Box::new(crate::substream::verif_c04::SubstreamBox::new())),
+        "c10" => Some(Box::new(
+            crate::transport::manager::handle::verif_c10::AddrBox::new(),
+        )),
         _ => None,
     }
 }
@@ -44,6 +47,7 @@ pub fn areas() -> Vec<&'static str> {
         "c18",
         "c19",
     ]
+    vec!["c10", "c17"]
 }
 
 /// Decode a hex string.
